@@ -3,10 +3,11 @@
 import json
 import os
 HERE = os.path.dirname(os.path.abspath(__file__))
-# one end-to-end thorough run per property (obligations, wall seconds); measured while other jobs were running on the same 16 cores
-THOROUGH = {'C01': (2320, 9512), 'C02': (389, 3908), 'C03': (1446, 2188), 'C04': (108, 1024), 'C05': (961, 811), 'C06': (44, 305), 'C07': (82, 1779), 'C08': (426, 1183),
-            'C09': (738, 853), 'C10': (401, 211), 'C11': (1130, 1198), 'C12': (139, 128), 'C13': (190, 2226), 'C14': (142, 3246), 'C15': (225, 232), 'C16': (44, 165),
-            'C17': (447, 1133), 'C18': (215, 657), 'C19': (275, 1326), 'C20': (14, 112)}
+# one end-to-end thorough run per property (obligations, wall seconds): C05 C06 C09 C10 C15 C16 C18 C20 on the final tree with an idle machine, the others sizing runs
+# made while other jobs were running on the same 16 cores
+THOROUGH = {'C01': (2320, 9512), 'C02': (389, 3908), 'C03': (1446, 2188), 'C04': (108, 1024), 'C05': (988, 909), 'C06': (70, 234), 'C07': (82, 1779), 'C08': (426, 1183),
+            'C09': (879, 423), 'C10': (491, 343), 'C11': (1130, 1198), 'C12': (139, 128), 'C13': (190, 2226), 'C14': (142, 3246), 'C15': (228, 172), 'C16': (56, 138),
+            'C17': (447, 1133), 'C18': (242, 395), 'C19': (275, 1326), 'C20': (41, 105)}
 print('| property | quick obligations | paths | solver queries | quick wall (s) | thorough obligations (sizing run) | thorough wall (s, sizing run) |')
 print('|---|---|---|---|---|---|---|')
 tq = tt = 0
